@@ -160,6 +160,23 @@ theorem Redis_expire_exact (s : RState) (h : RInv s) (T : Int) (ih : Bytes) (f :
         · intro e; cases e
         · intro ⟨e, ht⟩; cases e; exact absurd ht h
 
+/-- **D4 (known finding), as a theorem about the model**: `Redis_expire_exact` is about a collector pass
+that runs without anything in between. The pass is several round trips per swarm key; when an announce
+of the same peer lands between the collector's read (`gcKeyRead`: HGETALL and the decision what is
+stale) and its removal (`gcKeyApply`: HDEL of those fields, whatever their current value), a peer whose
+most recent announce is *after* the cutoff is removed. Concrete witness (replayed on the real store by
+the harness scenario `st.redis_gc_race`, see known_findings.json): put at 5, collector reads with
+cutoff 6, re-announce at 10, collector applies. -/
+theorem D4_gc_race_witness :
+    let ih : Bytes := List.replicate 20 1
+    let p : Peer := ⟨List.replicate 20 2, 6881, [10, 0, 0, 1], .v4⟩
+    let s0 := putSeeder {} ih p 5
+    let stale := gcKeyRead s0 (swarmKey .v4 true ih) 6          -- the collector's HGETALL: p is stale (5 ≤ 6)
+    let s1 := putSeeder s0 ih p 10                               -- p announces again: mtime 10 > 6
+    let s2 := gcKeyApply s1 .v4 (swarmKey .v4 true ih) stale     -- the collector's HDEL
+    AMap.get (view s1 ih .v4).seeders (peerKey p) = some 10 ∧ (view s2 ih .v4).seeders = [] := by
+  decide
+
 /-- C17 (Redis): in every reachable state the exported totals are (registered seeder sets, stored
 seeder memberships, stored leecher memberships), summed over the two families — as integers, so
 they are never negative -/
